@@ -1,31 +1,89 @@
 package runtime
 
 import (
+	"crypto/sha256"
 	"encoding/hex"
 	"fmt"
+	"reflect"
+	"strings"
+	"unsafe"
+
+	"github.com/google/mtail/internal/runtime/vm"
 )
 
-func fmtPtr(p interface{}) string { return fmt.Sprintf("%p", p) }
+// The accessors below are added by the /verif overlay only.  They reach the
+// loader's private state by reflection (field names looked up at run time), so
+// that a refactoring of unexported fields cannot stop the harnesses from
+// building; they are called by the harness thread at quiescence (no other
+// thread runs under the cooperative scheduler), hence without locking.
 
-// VerifHandles returns, for every program that has a running VM, the hex
-// content hash of the source it was compiled from.  Added by the /verif overlay only.
+func verifVMs(r *Runtime) (map[string]*vm.VM, error) {
+	hv := reflect.ValueOf(r).Elem().FieldByName("handles")
+	if !hv.IsValid() || hv.Kind() != reflect.Map {
+		return nil, fmt.Errorf("Runtime has no map field named handles")
+	}
+	out := map[string]*vm.VM{}
+	it := hv.MapRange()
+	for it.Next() {
+		h := it.Value()
+		for h.Kind() == reflect.Ptr || h.Kind() == reflect.Interface {
+			h = h.Elem()
+		}
+		var found *vm.VM
+		if h.Kind() == reflect.Struct {
+			for i := 0; i < h.NumField(); i++ {
+				f := h.Field(i)
+				if f.Type() == reflect.TypeOf((*vm.VM)(nil)) {
+					found = (*vm.VM)(unsafe.Pointer(f.Pointer()))
+				}
+			}
+		}
+		if found == nil {
+			return nil, fmt.Errorf("handle of %v holds no *vm.VM", it.Key())
+		}
+		out[it.Key().String()] = found
+	}
+	return out, nil
+}
+
+// VerifFingerprint identifies a compiled program by its regular expressions,
+// string table and bytecode (the part of DumpByteCode after the metric list) and its metric descriptors.
+func VerifFingerprint(v *vm.VM) string {
+	d := v.DumpByteCode()
+	if i := strings.Index(d, "Regexps\n"); i >= 0 {
+		d = d[i:]
+	}
+	for _, m := range v.Metrics {
+		d += fmt.Sprintf("M %s %v %v %q hidden=%v\n", m.Name, m.Kind, m.Type, m.Keys, m.Hidden)
+	}
+	h := sha256.Sum256([]byte(d))
+	return hex.EncodeToString(h[:8])
+}
+
+// VerifHandles returns, for every program that has a running VM, the fingerprint of its code.
 func (r *Runtime) VerifHandles() map[string]string {
-	r.handleMu.RLock()
-	defer r.handleMu.RUnlock()
+	vms, err := verifVMs(r)
+	if err != nil {
+		fmt.Println("ENGINE-ERROR overlay accessor:", err)
+		panic(err)
+	}
 	out := map[string]string{}
-	for name, h := range r.handles {
-		out[name] = hex.EncodeToString(h.contentHash)
+	for n, v := range vms {
+		out[n] = VerifFingerprint(v)
 	}
 	return out
 }
 
 // VerifVMIDs returns the identity (pointer) of each running VM.
 func (r *Runtime) VerifVMIDs() map[string]string {
-	r.handleMu.RLock()
-	defer r.handleMu.RUnlock()
+	vms, err := verifVMs(r)
+	if err != nil {
+		fmt.Println("ENGINE-ERROR overlay accessor:", err)
+		panic(err)
+	}
 	out := map[string]string{}
-	for name, h := range r.handles {
-		out[name] = fmtPtr(h.vm)
+	for n, v := range vms {
+		out[n] = fmt.Sprintf("%p", v)
 	}
 	return out
 }
